@@ -75,6 +75,16 @@ def mods_s(draw, base, stochastic_bias=False):
         mods['area'][1] = [-m, m]
     if draw(st.integers(0, 2)) == 0:
         mods['actions'] = draw(st.lists(st.sampled_from(ACTIONS), unique=True, min_size=2))
+    if draw(st.integers(0, 3)) == 0:
+        # spaces may declare more than the environment ever produces (same maxima, other index tables)
+        have_c = set(data['state_space']['colors']) | set(data['observation_space']['colors'])
+        have_o = set(data['state_space']['objects']) | set(data['observation_space']['objects'])
+        more_c = [c for c in ['RED', 'GREEN', 'BLUE', 'YELLOW'] if c not in have_c]
+        more_o = [t for t in ['Floor', 'Wall', 'Exit', 'Door', 'Key', 'MovingObstacle', 'Telepod', 'Beacon'] if t not in have_o]
+        if more_c:
+            mods['more_colors'] = draw(st.lists(st.sampled_from(more_c), unique=True, min_size=1))
+        if more_o and draw(st.booleans()):
+            mods['more_objects'] = draw(st.lists(st.sampled_from(more_o), unique=True, min_size=1, max_size=3))
     if not custom:
         if draw(st.integers(0, 1)) == 0 or stochastic_bias:
             mods['reset'] = draw(reset_mod_s(data['reset_function']['name']))
@@ -99,6 +109,13 @@ def apply(base, mods):
         data['observation_function']['area'] = copy.deepcopy(mods['area'])
     if 'actions' in mods:
         data['action_space'] = list(mods['actions'])
+    for sp in ('state_space', 'observation_space'):
+        for c in mods.get('more_colors', []):
+            if c not in data[sp]['colors']:
+                data[sp]['colors'].append(c)
+        for t in mods.get('more_objects', []):
+            if t not in data[sp]['objects']:
+                data[sp]['objects'].append(t)
     if 'reset' in mods:
         data['reset_function'].update(copy.deepcopy(mods['reset']))
     have = [t['name'] for t in data['transition_functions']]
